@@ -6,7 +6,8 @@
 //! The one benchmark `job` is entered once per thread count ("run" r = 0, 1, ..).  Call number
 //! `o` (per thread, per run) of thread `t` in run `r` advances the thread's clock by
 //! `ticks(seed, r, t, o)`; a sample of `s` calls therefore lasts `1 + sum of its calls' ticks`
-//! picoseconds, known to the caller from the configuration alone.  `HX_COUNTER=1`: inputs come
+//! picoseconds, known to the caller from the configuration alone; so are the allocator operations
+//! of every call (`HX_ALLOC`, see `alloc_op`).  `HX_COUNTER=1`: inputs come
 //! from a generator and a per-input `ItemsCount` of `items(seed, r, t, o)` is attached.
 use std::cell::Cell;
 use std::sync::atomic::{AtomicU64, Ordering};
@@ -57,8 +58,50 @@ pub fn items(seed: u64, r: u64, t: u64, o: u64) -> u64 {
     1 + mix(seed ^ 0x5555, r, t, o) % 50
 }
 
+/// What call (r, t, o) does with the allocator under `HX_ALLOC`: `None` nothing, `Some(op)` with
+/// op 0 = alloc 64 + free, 1 = alloc 64, grow to 128, free, 2 = alloc 64, shrink to 32, free.
+/// `0` never; `a` always; `i` only the calls of the middle time classes (so that, typically, neither
+/// the fastest nor the slowest sample allocates but interior ones do); `x` only the extreme classes;
+/// `r` independently of the time.
+pub fn alloc_op(mode: char, seed: u64, r: u64, t: u64, o: u64) -> Option<u64> {
+    let class = mix(seed, r, t, o) % 7;
+    let yes = match mode {
+        'a' => true,
+        'i' => (2..=4).contains(&class),
+        'x' => class == 0 || class == 6,
+        'r' => mix(seed ^ 0xA110C, r, t, o) % 3 == 0,
+        _ => false,
+    };
+    if yes {
+        Some((mix(seed ^ 0x0905, r, t, o) >> 8) % 3)
+    } else {
+        None
+    }
+}
+
+fn do_alloc(op: u64) {
+    unsafe {
+        let l64 = std::alloc::Layout::from_size_align(64, 1).unwrap();
+        let mut p = std::alloc::alloc(l64);
+        assert!(!p.is_null());
+        p = divan::black_box(p);
+        match op {
+            1 => {
+                p = std::alloc::realloc(p, l64, 128);
+                std::alloc::dealloc(divan::black_box(p), std::alloc::Layout::from_size_align(128, 1).unwrap());
+            }
+            2 => {
+                p = std::alloc::realloc(p, l64, 32);
+                std::alloc::dealloc(divan::black_box(p), std::alloc::Layout::from_size_align(32, 1).unwrap());
+            }
+            _ => std::alloc::dealloc(p, l64),
+        }
+    }
+}
+
 #[divan::bench]
 fn job(b: Bencher) {
+    let amode: char = std::env::var("HX_ALLOC").ok().and_then(|s| s.chars().next()).unwrap_or('0');
     let seed: u64 = std::env::var("HX_SEED").ok().and_then(|s| s.parse().ok()).unwrap_or(0);
     let counter = std::env::var("HX_COUNTER").map(|c| c == "1").unwrap_or(false);
     let run = RUN.fetch_add(1, Ordering::SeqCst);
@@ -66,6 +109,9 @@ fn job(b: Bencher) {
         let t = v::thread_index() as u64;
         let o = next_ord(&ORD, run);
         v::vclock_advance(ticks(seed, run, t, o));
+        if let Some(op) = alloc_op(amode, seed, run, t, o) {
+            do_alloc(op);
+        }
     };
     if counter {
         b.with_inputs(move || {
